@@ -451,17 +451,35 @@ pub fn run(ctx: &Ctx) -> (Acc, Report) {
     let n_variants = variants.len();
 
     par_items(&mut acc, &variants, |a, vi, v| {
-        let id = || v.label.clone();
+      let (req, body) = v.form.request("/bkt", HOST);
+      // framings: one frame for every form; for the forms with at most one deviation also 1- and 3-byte frames and every
+      // two-frame cut from 3 bytes before the end of the file to 4 bytes after its closing delimiter
+      let mut framings: Vec<(String, Vec<Vec<u8>>)> = vec![(String::new(), vec![body.clone()])];
+      if v.label.starts_with("E1/") && !v.label.contains('+') {
+          framings.push(("@1-byte-frames".into(), body.chunks(1).map(<[u8]>::to_vec).collect()));
+          framings.push(("@3-byte-frames".into(), body.chunks(3).map(<[u8]>::to_vec).collect()));
+          let marker = b"filename=";
+          if let Some(h) = body.windows(marker.len()).position(|w| w == marker) {
+              if let Some(s0) = body[h..].windows(4).position(|w| w == b"\r\n\r\n") {
+                  let file_end = h + s0 + 4 + v.form.file.len();
+                  let last = (file_end + v.form.boundary.len() + 4 + 4).min(body.len() - 1);
+                  for cut in file_end.saturating_sub(3).max(1)..=last {
+                      framings.push((format!("@cut{:+}", cut as i64 - file_end as i64), vec![body[..cut].to_vec(), body[cut..].to_vec()]));
+                  }
+              }
+          }
+      }
+      for (fname, frames) in framings {
+        let id = || format!("{}{fname}", v.label);
         if !a.selected(&id) {
-            return;
+            continue;
         }
         a.eval();
         set_clock_ms(now * 1000);
-        let (req, body) = v.form.request("/bkt", HOST);
         let reference = verify_form(&v.form, "bkt", now);
         let cfg = SvcCfg { keys: Some(vec![(AK.into(), SK.into()), (AK2.into(), SK2.into())]), access: AccessMode::Allow, ..Default::default() };
         let (svc, log) = cfg.build();
-        let out = call(&svc, &req, body_one_frame(&body));
+        let out = call(&svc, &req, body_from_steps(frames.into_iter().map(Step::Data).collect()));
         let evs = log.lock().unwrap().clone();
         let calls = backend_calls(&log);
         let downstream: Vec<String> = evs.iter().filter(|e| !matches!(e, Event::Auth { .. })).map(Event::short).collect();
@@ -470,7 +488,7 @@ pub fn run(ctx: &Ctx) -> (Acc, Report) {
         a.outcome(&format!("ref={} impl={}", match &reference { FormVerdict::Accept { .. } => "accept".to_owned(), FormVerdict::RejectAuth(_) => "reject-auth".to_owned(), FormVerdict::RejectPolicy(p) => format!("reject-policy({p:?})"), FormVerdict::NotJudged => "not-judged".to_owned() }, if impl_accept { "accept".to_owned() } else { format!("reject:{}", out.verdict()) }));
         if matches!(out, CallOutcome::Panic(_) | CallOutcome::Hang | CallOutcome::TransportFailure(_)) {
             a.fail("C10/no-response", vi, id(), out.verdict(), json!({}));
-            return;
+            continue;
         }
         match &reference {
             FormVerdict::NotJudged => a.count("forms_not_judged(repeated authentication field / unknown condition operator)", 1),
@@ -494,7 +512,7 @@ pub fn run(ctx: &Ctx) -> (Acc, Report) {
             FormVerdict::Accept { ak } => {
                 if calls.len() != 1 {
                     a.fail("C10/valid-form-refused", vi, id(), format!("signed, compliant form not stored: {} ({} backend calls)", out.verdict(), calls.len()), json!({"label": v.label, "fields": v.form.fields, "boundary": v.form.boundary}));
-                    return;
+                    continue;
                 }
                 let bc = &calls[0];
                 let mut bad: Vec<String> = Vec::new();
@@ -548,19 +566,20 @@ pub fn run(ctx: &Ctx) -> (Acc, Report) {
                 }
             }
         }
-        if vi < 2 {
+        if vi < 2 && fname.is_empty() {
             a.sample(vi, json!({"label": v.label, "fields": v.form.fields, "file_len": v.form.file.len(), "reference": format!("{reference:?}"), "implementation": out.verdict()}));
         }
-        s3s::verif_hooks::set_now(None);
+      }
+      s3s::verif_hooks::set_now(None);
     });
     let rep = Report {
         level: "exploration",
-        rule: format!("{n_variants} forms: a policy-signed base form with 0, 1 and 2 simultaneous deviations (thorough: 3 over the axes that are not single-byte file contents) over {n_axes} axes (field-name case, x-amz-meta fields, header-equivalent fields, duplicate/unknown/after-file fields, keys, 3 boundaries, file contents incl. every single byte value, CR/LF runs and proper prefixes of the delimiter, 19 policies: expiry on both sides of the owned clock, eq/starts-with/bucket/content-length-range/meta conditions satisfied and violated, malformed documents) plus every single-character mutation, removal and emptying of policy, signature, credential, date and algorithm. Oracle: reference form verifier + field-wise comparison of the PutObjectInput at the backend."),
+        rule: format!("{n_variants} forms: a policy-signed base form with 0, 1 and 2 simultaneous deviations (thorough: 3 over the axes that are not single-byte file contents) over {n_axes} axes (field-name case, x-amz-meta fields, header-equivalent fields, duplicate/unknown/after-file fields, keys, 3 boundaries, file contents incl. every single byte value, CR/LF runs and proper prefixes of the delimiter, 19 policies: expiry on both sides of the owned clock, eq/starts-with/bucket/content-length-range/meta conditions satisfied and violated, malformed documents) plus every single-character mutation, removal and emptying of policy, signature, credential, date and algorithm. Every form with at most one deviation is delivered in one frame, in 1-byte frames, in 3-byte frames and cut in two at every offset from 3 bytes before the end of the file to 4 bytes after its closing delimiter; the others in one frame. Oracle: reference form verifier + field-wise comparison of the PutObjectInput at the backend."),
         exhaustive: true,
         extra: json!({"forms": n_variants, "axes": n_axes, "transport_fault_cases": n_faults, "transport_fault_rule": "3 signed, compliant forms (base; 300-byte file with CR/LF; a field after the file) x body ends / I/O error / two frames then I/O error after every byte offset: whatever reaches the backend as an object write is the complete file"}),
         assumptions: vec![
             "clock owned through the verif-hooks seam (2024-02-29T12:01:00Z)".into(),
-            "forms are delivered in one frame (framing is C09's subject)".into(),
+            "forms with two or more deviations are delivered in one frame (framing as such is C09's subject)".into(),
             "file contents never contain the boundary string itself (no browser emits that); the meaning of a repeated field is not defined by the statement and is not judged".into(),
         ],
     };
